@@ -375,8 +375,11 @@ MUTANTS = {
     # ---------------------------------------------------------------- reverts of the later fixes
     "rev_fix_dummy_sample_weight_name": {
         "props": ["C09", "C08"], "what": "revert fix 7d64327: DummyClassifier fallback fitted with the user's sample_weight_name",
-        "edits": [(GS, "                sample_weight_name = \"sample_weight\"\n", "                pass\n"),
-                  (LAG, "            sample_weight_name = \"sample_weight\"\n", "            pass\n")]},
+        "edits": [(GS, "                fit_params = {}\n", "                pass\n"),
+                  (LAG, "            fit_params = {}\n", "            pass\n")]},
+    "rev_fix_dummy_zero_weights": {
+        "props": ["C09"], "what": "revert the later fix: the DummyClassifier fallback is fitted with the (possibly all-zero) weights as plain sample_weight",
+        "edits": [(GS, "                fit_params = {}\n", "                fit_params = {\"sample_weight\": weights}\n")]},
     "rev_fix_error_rate_parity_uint8": {
         "props": ["C06"], "what": "revert fix 1283ce5: ErrorRateParity utilities built in the labels' own dtype",
         "edits": [(UP, "        utilities = np.vstack([y_float, 1 - y_float]).T", "        utilities = np.vstack([y_train, 1 - y_train]).T")]},
